@@ -146,3 +146,29 @@ Proof.
   replace (k + (count_le lines off - 1) - k)%nat with (count_le lines off - 1)%nat by lia.
   rewrite (nth_map_lt (fun o => o + Z.of_nat k) _ _ 0 0) by lia. lia.
 Qed.
+
+(* unpack can be inverted through the table: the reported line is a line of the table, the
+   reported column is at least 1, and start-of-line + column - 1 is the offset again.  Hence two
+   different offsets of one file are never reported as the same line:column. *)
+Theorem unpack_inverse lines off :
+  sorted lines -> nth 0 lines 1 = 0 -> 0 <= off ->
+  let '(l, c) := unpack lines off in
+  1 <= l <= Z.of_nat (length lines) /\ 1 <= c /\ nth (Z.to_nat (l - 1)) lines 0 + c - 1 = off.
+Proof.
+  intros Hs H0 Hoff.
+  destruct (unpack_correct lines off Hs H0 Hoff) as [k [Hk [Hu [Hle _]]]].
+  rewrite Hu.
+  replace (Z.to_nat (Z.of_nat k + 1 - 1)) with k by lia.
+  repeat split; lia.
+Qed.
+
+Theorem unpack_injective lines o1 o2 :
+  sorted lines -> nth 0 lines 1 = 0 -> 0 <= o1 -> 0 <= o2 ->
+  unpack lines o1 = unpack lines o2 -> o1 = o2.
+Proof.
+  intros Hs H0 H1 H2 He.
+  pose proof (unpack_inverse lines o1 Hs H0 H1) as I1.
+  pose proof (unpack_inverse lines o2 Hs H0 H2) as I2.
+  rewrite He in I1. destruct (unpack lines o2) as [l c].
+  destruct I1 as [_ [_ E1]]. destruct I2 as [_ [_ E2]]. lia.
+Qed.
